@@ -9,6 +9,9 @@ CLAIMED = {
  "C02": dict(text="Bounded symbolic execution of the real tangent code on arcs with symbolic points (closed-form tangent oracle) and of the real matrix assembly on catalogue tissues with one symbolic unit tangent per (interface, junction); every coefficient, row and column obligation is an SMT query over all values, with the known defect regions split off by the solver.",
              note="Floats as reals; circle-fit libraries stubbed by the circumcentre contract (the repo's objective is checked to vanish there); 2..5 (9 thorough) points per interface; catalogue topologies only; counterexamples of the tissue-level obligations are replayed with the tangent stub retained.",
              ref="3/C02"),
+ "C03": dict(text="Series whose neighbouring-frame positions are defined symbolically as position + elapsed time x resultant of symbolic tensions along symbolic tangents; the real velocity-based solve is executed and the system reaching the back-end is shown to be solved by the true tensions up to the 5e-4 rounding bound, for every tension vector, tangent configuration, time stamps and frame numbering in the bound; the reported values are the back-end's.",
+             note="Back-end optimality and uniqueness trusted as in C01 (same multiplier-column caveat); T3 three-frame series (K4-n0 thorough); correspondence via initial_guess; lsq_linear only structurally (C05).",
+             ref="3/C03"),
  "C04": dict(text="The real curvature, pressure-row and pressure-solve code runs on symbolic inputs: per-point and total curvature signs on symbolic arcs, exact zero / scale / translation / reflection behaviour of the turning estimate, the +-1 pair and right-hand side of a row for every storage direction and orientation pattern of two symbolic cells, and the bordered normal equations, zero-sum, linearity and zero-for-isolated-cells of the solve with symbolic tensions.",
              note="Two numerical-accuracy clauses (3% turning accuracy, correlation >= 0.9) are transcendental and not claimed; np.gradient shimmed by its documented formula; exact rational inverse on concrete geometry; per-point sign only for uniformly sampled arcs (n<=9) and free 3-point arcs.",
              ref="3/C04"),
